@@ -147,6 +147,13 @@ def eval_py(src):
     return ("results", [_run(None, code, env) for env in F.ENVS])
 
 
+def _flags(parts):
+    """Coarse grouping for signatures: which field features occur anywhere in the structure."""
+    f = [p for p in parts if p[0] == "F"]
+    return ("debug" if any(p[3] for p in f) else "") + ("+conv" if any(p[2] for p in f) else "") + \
+        ("+spec" if any(p[4] for p in f) else "") or "plain"
+
+
 def judge_valid(parts, mode):
     from mc.ref import lit_fstr as F
     parts = [list(p) for p in parts]
@@ -187,7 +194,7 @@ def judge_valid(parts, mode):
         if h != want and not dis:
             dis.append(("fstring-value-differs", case,
                         f"x={env['x']!r}: Hy {hy_text!r} -> {h!r}; Python {py_text!r} -> {want!r}",
-                        f"fstring-value-differs:{mode}:{shape}", dict(fields, hy=h[0], py=want[0])))
+                        f"fstring-value-differs:{h[0]}/{want[0]}:{_flags(parts)}", dict(fields, hy=h[0], py=want[0])))
     return f"{mode}:" + "/".join(kinds), dis, hy_text
 
 
